@@ -35,7 +35,7 @@ func runCLog(r *verifsim.Run) {
 	cfg.Fps = r.OneOf(1, 1, 2)
 	cfg.ThrOn = false
 	cfg.Cont = false
-	cfg.MinDiskMB = 0
+	cfg.MinDiskMB, cfg.SimFree = 0, false
 	// window closed for (most of) the run: the bubble clock starts at 00:00
 	cfg.WinStart, cfg.WinStop = localHHMM(12*60), localHHMM(13*60) // closed for the whole run
 	if r.Chance(1, 3) {
